@@ -220,11 +220,17 @@ func (e *Executor) RunTask(ctx context.Context, call *Call) error {
 
 		for _, p := range t.Prompt {
 			if p != "" && !e.Dry {
-				if err := e.Logger.Prompt(logger.Yellow, p, "n", "y", "yes"); errors.Is(err, logger.ErrNoTerminal) {
-					return &errors.TaskCancelledNoTerminalError{TaskName: call.Task}
-				} else if errors.Is(err, logger.ErrPromptCancelled) {
-					return &errors.TaskCancelledByUserError{TaskName: call.Task}
-				} else if err != nil {
+				if err := e.Logger.Prompt(logger.Yellow, p, "n", "y", "yes"); err != nil {
+					// The up-to-date check has already recorded the new fingerprint:
+					// forget it, the commands did not run.
+					if err2 := e.statusOnError(t); err2 != nil {
+						e.Logger.VerboseErrf(logger.Yellow, "task: error cleaning status on error: %v\n", err2)
+					}
+					if errors.Is(err, logger.ErrNoTerminal) {
+						return &errors.TaskCancelledNoTerminalError{TaskName: call.Task}
+					} else if errors.Is(err, logger.ErrPromptCancelled) {
+						return &errors.TaskCancelledByUserError{TaskName: call.Task}
+					}
 					return err
 				}
 			}
